@@ -3,7 +3,7 @@ from __future__ import annotations
 
 from ..model import AnalysisError, Program
 from ..report import Run
-from ..skel import quoted_spans, render, renderable_classes, skeletons
+from ..skel import function_skeletons, quoted_spans, render, renderable_classes, skeletons
 from ..symex import (Const, CtxV, EnumV, Evaluator, Hole, Inh, InhOr, Lit, Obj, Opaque, Phi, SlotP, Str, Sym, show)
 from .c06 import paths
 
@@ -81,19 +81,20 @@ def check(program: Program, run: Run) -> None:
     run.rule("R1 every name hole is Quoted with a quote expression built from ctx.quote_char / ctx.alias_quote_char")
     run.rule("R2 definition-site and reference-site quote characters are equal under every shipped SQL_CONTEXT")
     run.rule("R3 the quoted text has the delimiter doubled (escape)")
-    sk = skeletons(program)
+    fsk = function_skeletons(program)
     n_sites = 0
     raw_seen = set()
     quote_sites = {}     # site label -> quote expr V
     unescaped = 0
     seen_sites = set()
-    for c, (skv, ev) in sk.items():
-        for flat in paths(skv, limit=48):
+    for f, skv in fsk.items():
+        c = f.cls
+        for flat in paths(skv, limit=4000):
             spans = quoted_spans(flat)
             holes = name_holes(flat)
             for i, a, s in holes:
                 p = flat[i]
-                src_cls = p.src[0].rsplit(".", 1)[0] if p.src else c.resolve("get_sql").cls.qualname
+                src_cls = p.src[0].rsplit(".", 1)[0] if p.src else c.qualname
                 owner = c.qualname if (p.src and p.src[0].startswith("utils.")) else src_cls
                 if (owner, a) in EXEMPT or (c.qualname, a) in EXEMPT or any((k.qualname, a) in EXEMPT for k in c.mro):
                     continue
@@ -103,7 +104,7 @@ def check(program: Program, run: Run) -> None:
                 if p.src and len(p.src) > 3:
                     chain = [q for q in p.src[3] if not q.startswith("utils.")]
                     caller = chain[-1] if chain else None
-                site = f"{caller or owner}:{a}"
+                site = f"{caller or f.qualname}:{a}"
                 if (site, bool(inside)) in seen_sites:
                     if inside and not (isinstance(p.value, Sym) and ".replace" in s):
                         unescaped += 1
@@ -114,7 +115,7 @@ def check(program: Program, run: Run) -> None:
                     run.ob("C07/R1 name emitted between identifier quotes", site, False, detail=s, where=f"{p.src[2]}:{p.src[1]}" if p.src else "")
                     if key not in raw_seen:
                         raw_seen.add(key)
-                        run.finding(key, f"{caller or owner} prints the user-supplied name `{s}` without identifier quotes: spaces, keywords or quote characters in it change the statement",
+                        run.finding(key, f"{caller or f.qualname} prints the user-supplied name `{s}` without identifier quotes: spaces, keywords or quote characters in it change the statement",
                                     where=f"{p.src[2]}:{p.src[1]}" if p.src else "", rule="R1")
                     continue
                 sp = inside[0]
